@@ -1032,7 +1032,7 @@ pub fn given_occupied(a: u64, v: bool) {
 }
 
 // ---- concrete byte contents (codec harnesses only): a small inline table, no heap
-pub const CMAX: usize = 96;
+pub const CMAX: usize = 640;
 pub const CSLOTS: usize = 4;
 pub struct ContentTable {
     pub n: usize,
@@ -1090,6 +1090,21 @@ pub fn content_id(s: &[u8]) -> u64 {
     }
     t.n += 1;
     id
+}
+/// id of already registered content, if any (does not register)
+pub fn lookup_content(s: &[u8]) -> Option<u64> {
+    if s.len() > CMAX {
+        return None;
+    }
+    let t = unsafe { &mut CONTENT };
+    let mut k = 0;
+    while k < t.n {
+        if same_content(t, k, s) {
+            return Some(t.id[k]);
+        }
+        k += 1;
+    }
+    None
 }
 pub fn content_of(id: u64) -> std::vec::Vec<u8> {
     if id == crate::EMPTY_ID {
